@@ -105,3 +105,15 @@ VARIANTS += [
          old="        with self.lock:\n            self._read_trials_from_remote_storage(study_id)\n",
          new="        self._read_trials_from_remote_storage(study_id)\n        with self.lock:\n"),
 ]
+
+VARIANTS += [
+    dict(id="c08-cached-delete-backend-outside-lock", prop="C08", file=CS, expect="R08.7",
+         old="            # The study is deleted in the backend before the lock is released. Otherwise a\n            # concurrent reader could fill the cache again from the study that still exists.\n            self._backend.delete_study(study_id)\n",
+         new="        self._backend.delete_study(study_id)\n"),
+    dict(id="c08-cached-study-entry-dropped-in-trial-loop", prop="C08", file=CS, expect="R08.7",
+         old="                        del self._study_id_and_number_to_trial_id[(study_id, trial_number)]\n                del self._studies[study_id]\n",
+         new="                        del self._study_id_and_number_to_trial_id[(study_id, trial_number)]\n                    self._studies.pop(study_id, None)\n"),
+    dict(id="c08-cached-fetch-filtered-by-state", prop="C08", file=CS, expect="R08.1",
+         old="                states=None,\n                included_trial_ids=study.unfinished_trial_ids,",
+         new="                states=(TrialState.COMPLETE,),\n                included_trial_ids=study.unfinished_trial_ids,"),
+]
